@@ -112,6 +112,10 @@ pub struct Case {
     /// days that pass after the first delivery, before anything is tried again
     #[serde(default)]
     pub days_after: u16,
+    /// after the first delivery the signer set is rotated (1: ordinary, 2: with the operator's bypass) and whatever
+    /// is re-submitted afterwards is signed by the new set
+    #[serde(default)]
+    pub rotation_after: u8,
 }
 
 const DAY: u32 = 17280;
@@ -123,7 +127,7 @@ impl Property for C16 {
         "C16"
     }
     fn rule(&self) -> &'static str {
-        "proptest single cases: app (the shipped example / a minimal harness app that calls the interface's validate_message helper and aborts on error) x delivery (chain, id, source address from small pools incl. empty strings; payload 0..600 bytes) x at most one deviation (never approved; approved for another app / for the account-kind address with the app's 32 bytes / another payload / source address / id / chain; delivered twice; additionally approved for the other app; approval re-submitted, or the id re-approved with other content, after delivery; approved under another split of the same characters between chain and id, for 8 separators; approval and delivery differing only in letter case or a trailing space of chain / id / source address, in either direction) x 0..150 days passing between approval and delivery and between the first delivery and whatever is tried afterwards (ledger sequence and clock advanced; temporary entries of that age are gone). All 2x32 app x deviation combinations are also enumerated as fixed cases. Oracle: the app's effect (its executed event / counter) and the gateway's transition to executed happen iff the gateway held a matching unexecuted approval naming this app; otherwise the delivery fails, nothing is emitted and the ledger snapshot is identical. non-trivial = a deviation is present; distinct by Debug hash"
+        "proptest single cases: app (the shipped example / a minimal harness app that calls the interface's validate_message helper and aborts on error) x delivery (chain, id, source address from small pools incl. empty strings; payload 0..600 bytes) x at most one deviation (never approved; approved for another app / for the account-kind address with the app's 32 bytes / another payload / source address / id / chain; delivered twice; additionally approved for the other app; approval re-submitted, or the id re-approved with other content, after delivery; approved under another split of the same characters between chain and id, for 8 separators; approval and delivery differing only in letter case or a trailing space of chain / id / source address, in either direction) x 0..150 days passing between approval and delivery and between the first delivery and whatever is tried afterwards, optionally with a signer rotation (ordinary or operator-bypass) after the first delivery, later approvals being signed by the new set (ledger sequence and clock advanced; temporary entries of that age are gone). All 2x32 app x deviation combinations are also enumerated as fixed cases. Oracle: the app's effect (its executed event / counter) and the gateway's transition to executed happen iff the gateway held a matching unexecuted approval naming this app; otherwise the delivery fails, nothing is emitted and the ledger snapshot is identical. non-trivial = a deviation is present; distinct by Debug hash"
     }
     fn fixed_is_exhaustive(&self) -> Option<&'static str> {
         Some("app x deviation matrix (2 x 32) enumerated completely with one fixed delivery; deliveries sampled")
@@ -133,18 +137,21 @@ impl Property for C16 {
     }
     fn strategy(&self, _tier: Tier) -> BoxedStrategy<Case> {
         (any::<bool>(), prop::sample::select(DEVS.to_vec()), 0u8..3, 0u8..3, 0u8..3, 0u16..600, any::<u64>(), prop::sample::select(DAYS.to_vec()), prop::sample::select(DAYS.to_vec()))
-            .prop_map(|(example_app, dev, chain, id, src, payload_len, seed, days_before, days_after)| Case { example_app, dev, chain, id, src, payload_len, seed, days_before, days_after })
+            .prop_map(|(example_app, dev, chain, id, src, payload_len, seed, days_before, days_after)| Case { example_app, dev, chain, id, src, payload_len, seed, days_before, days_after, rotation_after: (seed % 5).min(2) as u8 % 3 })
             .boxed()
     }
     fn fixed_cases(&self, _tier: Tier) -> Vec<Case> {
         let mut v = vec![];
         for example_app in [true, false] {
             for dev in DEVS {
-                v.push(Case { example_app, dev, chain: 0, id: 0, src: 0, payload_len: 10, seed: 1, days_before: 0, days_after: 0 });
+                v.push(Case { example_app, dev, chain: 0, id: 0, src: 0, payload_len: 10, seed: 1, days_before: 0, days_after: 0, rotation_after: 0 });
                 if matches!(dev, Dev::None | Dev::DeliveredTwice | Dev::ResubmittedApprovalAfterDelivery | Dev::ReapprovedOtherContentAfterDelivery) {
+                    for r in [1u8, 2] {
+                        v.push(Case { example_app, dev, chain: 0, id: 0, src: 0, payload_len: 10, seed: 1, days_before: 0, days_after: 0, rotation_after: r });
+                    }
                     for d in [31u16, 61, 150] {
-                        v.push(Case { example_app, dev, chain: 0, id: 0, src: 0, payload_len: 10, seed: 1, days_before: 0, days_after: d });
-                        v.push(Case { example_app, dev, chain: 0, id: 0, src: 0, payload_len: 10, seed: 1, days_before: d, days_after: 0 });
+                        v.push(Case { example_app, dev, chain: 0, id: 0, src: 0, payload_len: 10, seed: 1, days_before: 0, days_after: d, rotation_after: 0 });
+                        v.push(Case { example_app, dev, chain: 0, id: 0, src: 0, payload_len: 10, seed: 1, days_before: d, days_after: 0, rotation_after: 0 });
                     }
                 }
             }
@@ -260,6 +267,15 @@ impl Property for C16 {
             if case.days_after > 0 {
                 advance_ledgers(&env, DAY * case.days_after as u32);
                 cx.label(if case.days_after > 60 { "more_than_60_days_pass_after_delivery" } else { "days_pass_after_delivery" });
+            }
+            let mut set = set;
+            if case.rotation_after % 3 != 0 {
+                let next = simple_set(77);
+                env.mock_all_auths();
+                ensure_p!(gw.rotate(&env, &next, &set, set.full_mask(), case.rotation_after % 3 == 2), "honest rotation refused");
+                env.set_auths(&[]);
+                set = next;
+                cx.label(if case.rotation_after % 3 == 2 { "bypass_rotation_after_delivery" } else { "rotation_after_delivery" });
             }
             let snap1 = snapshot(&env);
             let ev1 = events_len(&env);
